@@ -108,8 +108,13 @@ def run_bounded(contract, fn, relpath, contracts, B):
     return {"exe": bex, "index": idx}
 
 
+def verify_node(run, relpath, contract, fn_node, **kw):
+    """verify a mechanically extracted slice (vk/pyvc/slice.py) instead of a whole function"""
+    return verify(run, relpath, contract, fn_node=fn_node, **kw)
+
+
 def verify(run, relpath, contract, fn_qual=None, contracts=None, fingerprint=None, tag="", replay=None,
-           timeout_ms=20000, property_fields=None):
+           timeout_ms=20000, property_fields=None, fn_node=None):
     """Generate and discharge all obligations of one function under `contract`.
 
     replay(counterexample dict, obligation) -> (fired: bool, detail) runs the real function natively.
@@ -119,7 +124,7 @@ def verify(run, relpath, contract, fn_qual=None, contracts=None, fingerprint=Non
     label = fn_qual + (f"[{tag}]" if tag else "")
     t0 = time.time()
     try:
-        fn = index().find(relpath, fn_qual)
+        fn = fn_node if fn_node is not None else index().find(relpath, fn_qual)
     except E.VCError as ex:
         run.oblig(f"extract:{label}", label, "A(pyvc)", "undecided", detail=str(ex))
         return {"stale": True}
